@@ -121,3 +121,84 @@ def weights(node: ast.AST, m: core.Mod | None = None, cls: str | None = None,
             raise Unsupported(f"non-linear term {'*'.join(mono)}")
         out[mono[0] if mono else ""] = c
     return out
+
+
+# ---------------------------------------------------------------------------
+# partial reads of a timedelta
+
+_TD_PARTS = ("days", "seconds", "microseconds")
+
+
+def _is_timedelta(e: ast.AST, defs: dict[str, list[ast.expr]], depth: int = 0) -> bool | None:
+    """True: provably a datetime.timedelta; None: unknown"""
+    e = core.strip_casts(e)
+    if depth > 6:
+        return None
+    if isinstance(e, ast.Call):
+        f = core.nun(e.func)
+        if f.endswith(".utcoffset") or f.endswith(".dst") or f.split(".")[-1] == "timedelta":
+            return True
+        if f == "abs" and len(e.args) == 1:
+            return _is_timedelta(e.args[0], defs, depth + 1)
+        return None
+    if isinstance(e, ast.BinOp) and isinstance(e.op, (ast.Add, ast.Sub)):
+        a, b = _is_timedelta(e.left, defs, depth + 1), _is_timedelta(e.right, defs, depth + 1)
+        return True if (a and b) else None
+    if isinstance(e, ast.UnaryOp) and isinstance(e.op, (ast.USub, ast.UAdd)):
+        return _is_timedelta(e.operand, defs, depth + 1)
+    if isinstance(e, ast.IfExp):
+        a, b = _is_timedelta(e.body, defs, depth + 1), _is_timedelta(e.orelse, defs, depth + 1)
+        return True if (a and b) else None
+    if isinstance(e, ast.Name) and e.id in defs:
+        rs = [_is_timedelta(v, defs, depth + 1) for v in defs[e.id]]
+        return True if rs and all(rs) else None
+    return None
+
+
+def partial_timedelta_reads(ctx, rule: str, m: core.Mod, quals: list[str], why: str) -> int:
+    """A timedelta has three slots (days, seconds, microseconds); `.seconds` alone is its value modulo one day and is
+    never negative.  Inside the listed functions every read of one slot of a provable timedelta must be accompanied, in
+    the same statement, by a read of `.days` of the same receiver (the accepted idiom is days*86400 + seconds) or stand
+    under a test of `.days`; a lone `.seconds` is reported."""
+    n = 0
+    for q in quals:
+        fn = m.func(q)
+        defs: dict[str, list[ast.expr]] = {}
+        for st in core.walk_fn(fn):
+            if isinstance(st, ast.Assign) and len(st.targets) == 1 and isinstance(st.targets[0], ast.Name):
+                defs.setdefault(st.targets[0].id, []).append(st.value)
+            elif isinstance(st, ast.AnnAssign) and isinstance(st.target, ast.Name) and st.value is not None:
+                defs.setdefault(st.target.id, []).append(st.value)
+        reads = [a for a in core.walk_fn(fn) if isinstance(a, ast.Attribute) and a.attr in _TD_PARTS and isinstance(a.ctx, ast.Load)]
+        bad = 0
+        for a in reads:
+            if a.attr != "seconds":
+                continue
+            td = _is_timedelta(a.value, defs)
+            if not td:
+                continue
+            recv = core.nun(a.value)
+            stmt = a
+            while not isinstance(stmt, ast.stmt):
+                stmt = stmt._parent
+            paired = any(isinstance(x, ast.Attribute) and x.attr == "days" and core.nun(x.value) == recv for x in ast.walk(stmt))
+            if not paired:
+                p = stmt
+                while p is not fn and not paired:
+                    p = p._parent
+                    if isinstance(p, (ast.If, ast.IfExp)):
+                        paired = any(isinstance(x, ast.Attribute) and x.attr == "days" and core.nun(x.value) == recv for x in ast.walk(p.test))
+                # an earlier always-exit guard on .days (`if delta.days: raise`)
+                for st in core.walk_fn(fn):
+                    if isinstance(st, ast.If) and st.lineno < stmt.lineno and st.body and isinstance(st.body[-1], (ast.Raise, ast.Return)) \
+                            and any(isinstance(x, ast.Attribute) and x.attr == "days" and core.nun(x.value) == recv for x in ast.walk(st.test)):
+                        paired = True
+            if True:
+                n += 1
+                bad += 0 if paired else 1
+                ctx.ob(rule, f"{q}/{recv}.{a.attr}", paired,
+                       f"`{core.nun(stmt)[:90]}` reads only .{a.attr} of the timedelta `{recv}`: the whole days are dropped and a "
+                       f"negative value wraps to 86400 - x; {why}", m.loc(a))
+        ctx.ob(rule, f"{q}/scan", bad == 0, f"{len(reads)} timedelta slot reads inspected", m.loc(fn), nontrivial=False)
+        n += 1
+    return n
